@@ -140,6 +140,7 @@ class Queue(mp_Queue):
             wacquire = None
 
         while True:
+            sending = False
             try:
                 nacquire()
                 try:
@@ -156,7 +157,9 @@ class Queue(mp_Queue):
                             return
 
                         # serialize the data before acquiring the lock
+                        sending = False
                         obj_ = dumps(obj, reducers=reducers)
+                        sending = True
                         if wacquire is None:
                             send_bytes(obj_)
                         else:
@@ -170,7 +173,14 @@ class Queue(mp_Queue):
                 except IndexError:
                     pass
             except BaseException as e:
-                if ignore_epipe and getattr(e, "errno", 0) == errno.EPIPE:
+                # A broken pipe is only expected when writing to the pipe: an
+                # object whose serialization fails with this error is reported
+                # as any other object that cannot be pickled.
+                if (
+                    sending
+                    and ignore_epipe
+                    and getattr(e, "errno", 0) == errno.EPIPE
+                ):
                     return
                 # Since this runs in a daemon thread the resources it uses
                 # may be become unusable while the process is cleaning up.
